@@ -39,6 +39,14 @@ def make_universe(seed, tags=(1, 2, 3, 11, 12, 13)):
                 m[rng.randrange(rows)] = [0] * cols            # an all-pruned row
             if n == 2:
                 m[rng.randrange(rows)][rng.randrange(cols)] = rng.choice([-1, 1]) * TINY      # a stored logit of magnitude 3e-9
+            if n == 3:
+                # float32 matrix with a very confident frame (logit +30) next to a fully pruned frame (all entries at the
+                # -80 floor): 110 apart, beyond what float32 exp() can represent unless each frame is normalised on its own
+                if rows < 2:
+                    m.append([0] * cols)
+                    rows += 1
+                m[0] = [0] * cols
+                m[rows - 1][rng.randrange(cols)] = 240
             key = repr(m)
             if key not in seen and any(v for r in m for v in r):
                 seen.add(key)
